@@ -1040,6 +1040,8 @@ class Interp:
             return ("pymethod", o, a) if callable(v) else v
         if o is None:
             raise PyRaise("AttributeError", (self.mod.name if self.mod else "?", getattr(node, "lineno", 0), f"None.{a}"))
+        if isinstance(o, type) and o in (dict, list, set, str, int, tuple, frozenset, bytes) and hasattr(o, a):
+            return ("pymethod", o, a)
         raise Unsupported(f"getattr {o!r}.{a}")
 
     def ev_Call(self, n, env):
@@ -1081,6 +1083,9 @@ class Interp:
         raise Unsupported(f"isinstance against {c!r}")
 
     def call(self, f, args, kw):
+        if isinstance(f, tuple) and f[0] == "host":
+            # a probe placed by a rule in the position of a repository function: receives the abstract arguments
+            return f[1](*args, **kw)
         if isinstance(f, tuple) and f[0] == "builtin":
             return self.call_builtin(f[1], args, kw)
         if isinstance(f, tuple) and f[0] == "pymethod":
